@@ -221,7 +221,6 @@ class Controller(cmd.Cmd):
                     else:
                         self.exitstatus = LSBInitExitStatuses.GENERIC
                         raise
-                do_func(arg)
             except Exception:
                 (file, fun, line), t, v, tbinfo = asyncore.compact_traceback()
                 error = 'error: %s, %s: file: %s line: %s' % (t, v, file, line)
